@@ -24,7 +24,7 @@ CHECKS = {
    "DESIGN.md §3 C09, Appendix F", "harness"),
  "C15": ("exploration",
    "property-based testing (proptest): generated entries encoded by an independent BER writer with generated length forms, SearchEntry::construct output compared with a reference classification",
-   "Entries with distinct attribute descriptions (with and without options such as ;binary) and values drawn from valid/empty/invalid UTF-8 in every order are compared against the stated classification rule (exactly one map, text iff all values UTF-8 in order, else binary multiset).",
+   "Entries with distinct attribute descriptions (with and without options such as ;binary) and values drawn from valid/empty/invalid UTF-8 in every order (incl. long valid text, 64 B - 192 KiB, with a multi-byte character on a power-of-two block boundary) are compared against the stated classification rule (exactly one map, text iff all values UTF-8 in order, else binary multiset).",
    "Trusted base: harness BER writer and entry model. DN and attribute descriptions are UTF-8 as in every well-formed entry.",
    "DESIGN.md §3 C15", "harness"),
  "C19": ("exploration",
